@@ -108,6 +108,7 @@ type StressRes struct {
 	StartOrder []int                         `json:"start_order,omitempty"`
 	Serials    map[string][]int64            `json:"serials,omitempty"`
 	CtxSerials map[string]map[string][]int64 `json:"ctx_serials,omitempty"`
+	CtxReach   map[string][]int64            `json:"ctx_reach,omitempty"`
 	Counts     map[string]int64              `json:"counts,omitempty"`
 	OKOps      map[string]int                `json:"ok_ops,omitempty"`
 }
@@ -570,6 +571,8 @@ const ctorsTable = `
 	probe.Ctors["fixt/pa.NewVal"] = pa.NewVal
 	probe.Ctors["fixt/pa.NewErr"] = pa.NewErr
 	probe.Ctors["fixt/pb.New"] = pb.New
+	probe.Ctors["fixt/pa.DecSame"] = pa.DecSame
+	probe.Ctors["fixt/pb.Dec"] = pb.Dec
 `
 
 func (l *Lab) runBatch(b []*Unit, race bool, depth int) error {
